@@ -58,7 +58,7 @@ theorem reads_convertTuple :
     sameSet (readsOf "convertTuple") (["prefixItems", "items"] ++ (if cur.tupOpen then ["maxItems"] else [])) = true := by decide
 
 theorem convObject_frame (p q : Parts) (h1 : p.properties = q.properties) (h2 : p.required = q.required)
-    (h3 : p.addl = q.addl) : convObject fx p = convObject fx q := by
+    (h3 : p.addl = q.addl) : convObject fx se p = convObject fx se q := by
   simp [convObject, objOf, addlValue, h1, h2, h3]
 
 theorem reads_convertObject : sameSet (readsOf "convertObject") ["properties", "required", "additionalProperties"] = true := by
@@ -66,8 +66,8 @@ theorem reads_convertObject : sameSet (readsOf "convertObject") ["properties", "
 
 /-- `convByType` (= `convertByType` + `convertMultiType`) adds the `type` keyword to what the per-type converters read. -/
 theorem convByType_frame (p q : Parts) (ht : p.types = q.types)
-    (h : ∀ t, convOneType fx p t = convOneType fx q t) : convByType fx p = convByType fx q := by
-  have hm : ∀ l : List TypeName, l.map (convOneType fx p) = l.map (convOneType fx q) := fun l => by simp [h]
+    (h : ∀ t, convOneType fx se p t = convOneType fx se q t) : convByType fx se p = convByType fx se q := by
+  have hm : ∀ l : List TypeName, l.map (convOneType fx se p) = l.map (convOneType fx se q) := fun l => by simp [h]
   simp only [convByType, ht, hm]
   cases q.types with
   | nil => rfl
@@ -79,7 +79,7 @@ theorem reads_convertByType : sameSet (readsOf "convertByType" ++ readsOf "conve
     oneOf, const, enum — and at nothing else before it hands over to `convByType`. -/
 theorem assemble_frame (T : Str → Bool) (st : Bool) (p q : Parts) (h0 : p.ref = q.ref) (h1 : p.others = q.others)
     (h2 : p.allOf = q.allOf) (h3 : p.anyOf = q.anyOf) (h4 : p.oneOf = q.oneOf) (h5 : p.const = q.const)
-    (h6 : p.enum = q.enum) (h7 : convByType fx p = convByType fx q) : assemble fx T st p = assemble fx T st q := by
+    (h6 : p.enum = q.enum) (h7 : ∀ se, convByType fx se p = convByType fx se q) : assemble fx T st p = assemble fx T st q := by
   simp only [assemble, h0, h1, h2, h3, h4, h5, h6, h7]
 
 /-- `convert` reads the boolean-schema flag, the resolved `$ref`, and the five dispatch keywords, in this order. -/
